@@ -76,6 +76,9 @@ type VC struct {
 	ghostVars map[string]*Term
 	accessed  map[string]bool
 	noLoadFacts bool
+	preds       map[string]*predInfo
+	predsInit   bool
+	suppressTouch bool
 }
 
 func (vc *VC) fresh(prefix string, s *Sort) *Term {
@@ -126,15 +129,50 @@ func (vc *VC) oblige(st *State, kind, name, pos, desc string, goal *Term, props 
 	}
 	// contract clauses that are conjunctions are discharged conjunct by conjunct (smaller, more stable queries;
 	// the failing conjunct is named in the report)
-	if goal.Kind == TApp && goal.Op == "and" && len(goal.Args) > 1 && (kind == "ensures" || kind == "invariant" || kind == "requires") {
-		for i, g := range goal.Args {
-			vc.obligs = append(vc.obligs, &Oblig{ID: fmt.Sprintf("%s/%d", id, i+1), Kind: kind, Func: vc.root.String(), Pos: pos, Props: props,
-				Desc: fmt.Sprintf("%s (conjunct %d of %d)", desc, i+1, len(goal.Args)), Reach: st.reach, Goal: g, NAssume: len(vc.assumes), vc: vc})
+	if kind == "ensures" || kind == "invariant" || kind == "requires" {
+		if parts := splitGoal(goal); len(parts) > 1 {
+			for i, g := range parts {
+				vc.obligs = append(vc.obligs, &Oblig{ID: fmt.Sprintf("%s/%d", id, i+1), Kind: kind, Func: vc.root.String(), Pos: pos, Props: props,
+					Desc: fmt.Sprintf("%s (conjunct %d of %d)", desc, i+1, len(parts)), Reach: st.reach, Goal: g, NAssume: len(vc.assumes), vc: vc})
+			}
+			return
 		}
-		return
 	}
 	vc.obligs = append(vc.obligs, &Oblig{ID: id, Kind: kind, Func: vc.root.String(), Pos: pos, Props: props, Desc: desc,
 		Reach: st.reach, Goal: goal, NAssume: len(vc.assumes), vc: vc})
+}
+
+// splitGoal distributes a goal over conjunctions: A && B, forall x :: (G ==> A && B), G ==> (A && B).
+func splitGoal(t *Term) []*Term {
+	switch {
+	case t.Kind == TApp && t.Op == "and":
+		var out []*Term
+		for _, a := range t.Args {
+			out = append(out, splitGoal(a)...)
+		}
+		return out
+	case t.Kind == TApp && t.Op == "=>" && len(t.Args) == 2:
+		parts := splitGoal(t.Args[1])
+		if len(parts) <= 1 {
+			return []*Term{t}
+		}
+		var out []*Term
+		for _, p := range parts {
+			out = append(out, mkImplies(t.Args[0], p))
+		}
+		return out
+	case t.Kind == TQuant && t.Op == "forall":
+		parts := splitGoal(t.Args[0])
+		if len(parts) <= 1 {
+			return []*Term{t}
+		}
+		var out []*Term
+		for _, p := range parts {
+			out = append(out, &Term{Kind: TQuant, Op: "forall", Bound: t.Bound, Args: []*Term{p}, Sort: SBool, Pats: t.Pats})
+		}
+		return out
+	}
+	return []*Term{t}
 }
 
 // ---------------------------------------------------------------- heap
@@ -165,34 +203,44 @@ func (vc *VC) famSet(st *State, key string, t *Term) {
 		t = v
 	}
 	st.heap[key] = t
+	vc.touchFamily(st, key)
 }
 
 func (vc *VC) famHavoc(st *State, key string, s *Sort) *Term {
 	v := vc.fresh("H$"+key, s)
 	vc.famSort[key] = s
 	st.heap[key] = v
+	vc.touchFamily(st, key)
 	return v
 }
 
-const allocKey = "$alloc"
+// Allocation is modelled with a logical clock: every reference has a fixed birth time (uninterpreted
+// birth : Ref -> Int); a state carries the current clock; r is allocated in a state iff birth(r) < clock.
+// Allocation takes the current clock as birth time and advances the clock. No arrays, no quantifiers.
+const allocKey = "$clock"
 
-var allocSort = SArr(SRef, SBool)
+var allocSort = SInt
 
-func (vc *VC) allocArr(st *State) *Term { return vc.famGet(st, allocKey, allocSort) }
+func (vc *VC) clock(st *State) *Term { return vc.famGet(st, allocKey, allocSort) }
+
+func birth(r *Term) *Term { return mkApp("birth", SInt, r) }
+
+// allocated(r) in state st
+func (vc *VC) allocatedIn(st *State, r *Term) *Term { return mkCmp("<", birth(r), vc.clock(st)) }
 
 func (vc *VC) newRef(st *State, hint string) *Term {
 	r := vc.fresh("new$"+hint, SRef)
-	a := vc.allocArr(st)
-	vc.assume(st, mkAnd(mkNeq(r, tNull), mkNot(mkSelect(a, r))))
-	vc.famSet(st, allocKey, mkStore(a, r, tTrue))
+	c := vc.clock(st)
+	vc.assume(st, mkAnd(mkNeq(r, tNull), mkEq(birth(r), c)))
+	st.heap[allocKey] = vc.nameIfBig(mkAdd(c, mkInt(1)))
 	return r
 }
 
 func (vc *VC) growAlloc(st *State) {
-	a := vc.allocArr(st)
-	na := vc.famHavoc(st, allocKey, allocSort)
-	r := mkVar("r!", SRef)
-	vc.assume(st, mkForall([]*Term{r}, mkImplies(mkSelect(a, r), mkSelect(na, r)), []*Term{mkSelect(na, r)}))
+	c := vc.clock(st)
+	nc := vc.fresh("H$"+allocKey, allocSort)
+	st.heap[allocKey] = nc
+	vc.assume(st, mkCmp(">=", nc, c))
 }
 
 type locRef struct {
@@ -291,10 +339,10 @@ func (vc *VC) typeFact(st *State, tm *Term, l Leaf) {
 			vc.assume(st, rangeFact(tm, l.Typ))
 		}
 		if l.Sort == SRef {
-			vc.assume(st, mkOr(mkEq(tm, tNull), mkSelect(vc.allocArr(st), tm)))
+			vc.assume(st, mkOr(mkEq(tm, tNull), vc.allocatedIn(st, tm)))
 		}
 	case "base":
-		vc.assume(st, mkOr(mkEq(tm, tNull), mkSelect(vc.allocArr(st), tm)))
+		vc.assume(st, mkOr(mkEq(tm, tNull), vc.allocatedIn(st, tm)))
 	case "off", "len", "cap":
 		vc.assume(st, mkAnd(mkCmp("<=", mkInt(0), tm), mkCmp("<=", tm, mkBig(pow2(62)))))
 	}
@@ -317,7 +365,7 @@ func (vc *VC) valFacts(st *State, t types.Type, v Val) {
 	case *types.Slice:
 		s := v.(*VSlice)
 		vc.sliceFacts(st, s)
-		vc.assume(st, mkOr(mkEq(s.Base, tNull), mkSelect(vc.allocArr(st), s.Base)))
+		vc.assume(st, mkOr(mkEq(s.Base, tNull), vc.allocatedIn(st, s.Base)))
 		return
 	case *types.Tuple:
 		vt := v.(*VTuple)
@@ -592,6 +640,7 @@ func realLit(f constant.Value) *Term {
 type execResult struct {
 	st      *State
 	results []Val
+	exits   []frameExit
 }
 
 // execFunc runs fn from state st with the given arguments; returns the merged exit state (nil if no normal exit).
@@ -735,7 +784,7 @@ func (vc *VC) execFunc(fn *ssa.Function, args []Val, bind []Val, st *State, dept
 		}
 		results = append(results, vc.mergeVals(rt.At(i).Type(), vals, gs, merged, "res"))
 	}
-	return &execResult{st: merged, results: results}
+	return &execResult{st: merged, results: results, exits: fr.exits}
 }
 
 func (li *loopInfo) inAnyLoop(b *ssa.BasicBlock) bool {
